@@ -81,6 +81,20 @@ class Alphabet:
         return "note" if enc == "ascii" else self.word[enc]
 
 
+RARE_CHARS = ["\x0c", "\x0b", "\x1c", "\x1d", "\x1e", "\x85", "\u2028", "\u2029"]
+
+
+class RareAlphabet(Alphabet):
+    """the same alphabet with one rare character planted in the middle of every message word"""
+
+    def __init__(self, al, ch):
+        Alphabet.__init__(self, al.seed)
+        self.word = {e: (w[:2] + ch + w[2:]) for e, w in al.word.items()}
+
+    def plain(self, enc):
+        return "note" if enc == "ascii" else Alphabet(self.seed).word[enc]
+
+
 # --------------------------------------------------------------------------
 # constructs
 
@@ -523,6 +537,10 @@ BABEL_EXTRA = {
     "cp1251/magic-comment": ("cp1251", "magic", {}),
     "latin-1/magic-comment": ("latin-1", "magic", {}),
     "ascii/ascii-option": ("ascii", "bytes", {"encoding": "ascii"}),
+    # both options, different values: the template's own encoding is 'input_encoding' (it has precedence)
+    "cp1251/input_encoding+utf-8-encoding": ("cp1251", "bytes", {"input_encoding": "cp1251", "encoding": "utf-8"}),
+    "latin-1/input_encoding+cp1251-encoding": ("latin-1", "bytes", {"encoding": "cp1251", "input_encoding": "latin-1"}),
+    "utf-8/input_encoding+latin-1-encoding": ("utf-8", "bytes", {"input_encoding": "utf-8", "encoding": "latin-1"}),
 }
 LINGUA_FILE = ["ascii", "utf-8", "cp1251", "latin-1"]
 
@@ -851,6 +869,7 @@ BOUNDS = {
         "G12 block bodies": "<% %> and <%! %> blocks (code on the tag line / on the next line) whose first statement is an import / assignment / call, containing one compound statement of {if, if-else, for, while, with, try, def, class} whose header lines end in {nothing, a comment, a comment with a colon, a tight comment}; calls before / inside / after it in all 7 combinations; LF/CRLF; {none, imm}",
         "G13 whitespace-only head lines": "${ }, <% %>, <%! %> whose code is preceded by {nothing, a space, a TAB} behind the opener and 0-2 lines drawn from {empty, spaces, TAB, mixed}; forms {u, 2l}; LF/CRLF; {none, imm}",
         "G14 regex-metacharacter tags": "16 configured comment tags built from the seed's tag with [ ] ( ) . * + ? | ^ $ \\ { } (balanced and unbalanced), alone and next to a second tag: a comment starting with the literal tag (must attach) and one starting with what the tag would match as a pattern (must not), either order, LF/CRLF",
+        "G15 rare characters": "a message literal containing FF, VT, FS, GS, RS, NEL, U+2028 or U+2029 (line breaks for str.splitlines and blanks for \\s, ordinary characters in a Python string) in every construct layout, ascii / utf-8 / latin-1 sources, LF/CRLF, with and without a translator comment: message text and line exact",
         "G6 stale comment": "tagged comment directly before X in {message-free construct of each of the 14 kinds, the 4 control-line kinds left open, a text line, a blank line} x 0/1/3 text lines x {untagged comment, tagged comment, no comment} directly before a message construct of each of the 14 kinds x LF/CRLF",
     },
     "thorough": {
@@ -1100,6 +1119,25 @@ def gen_unit(unit, tier, al):
                 for extra in (False, True):
                     for eol in ("lf", "crlf"):
                         yield from ext_cases_tags(regex_tag_doc(al, "utf-8", spec, order, extra, eol), al, "utf-8")
+    elif g == "G15":
+        # a message literal containing a character that str.splitlines() / \s treat as a line break or blank but
+        # that is an ordinary character inside a Python string literal: FF, VT, FS/GS/RS, NEL, LS, PS
+        _, li = unit
+        layout = LAYOUTS[li]
+        for ci, ch in enumerate(RARE_CHARS):
+            for enc in ("ascii", "utf-8", "latin-1"):
+                if ord(ch) > 0x7F and enc == "ascii" or ord(ch) > 0xFF and enc == "latin-1":
+                    continue
+                ral = RareAlphabet(al, ch)
+                for form in ("u", "2l") if tier != "quick" or layout is CANON[layout[0]] else ("u",):
+                    if form not in forms_of(layout):
+                        continue
+                    cons = construct(ral, enc, layout, form)
+                    for eol in ("lf", "crlf"):
+                        for arr in ("none", "imm"):
+                            doc = single_doc(ral, enc, cons, 1, eol, arr, "text")
+                            doc["desc"] = dict(doc["desc"], rare_char="U+%04X" % ord(ch))
+                            yield from ext_cases(doc, ral, enc, lingua=(enc == "utf-8"))
     elif g == "V":
         return
     else:
@@ -1183,6 +1221,8 @@ def units(tier):
     for kind in ("expr", "code", "modcode"):
         us.append(("G13", kind))
     us.append(("G14",))
+    for li in range(len(LAYOUTS)):
+        us.append(("G15", li))
     return us
 
 
